@@ -336,6 +336,10 @@ class McConn:
                 head += b" %d" % it.cas
             if "value-trailing-blank" in dia:
                 head += b" "
+            if "value-double-blank" in dia:
+                head = head.replace(b" ", b"  ")          # (keys contain no blanks)
+            if "value-tab" in dia:
+                head = head.replace(b" ", b"\t", 2).replace(b"\t", b" ", 1)     # a tab between key and flags
             out.append(head + b"\r\n" + it.value + b"\r\n")
         if "repeat-first" in dia and out:
             out.append(out[0])                           # the first item once more
